@@ -39,7 +39,7 @@ BODIES = corpus.update_bodies()
 EXTRA = [['raw', 4, 1], ['raw', 3, 1], ['raw', 3, 0], ['raw', 5, 3], ['raw', 128, 5], ['raw', 1, 5], ['raw', 2, 3],
          ['notif', 'other', 6, 2, '03fffefd'], ['notif', 'other', 6, 4, 'c3'], ['notif', 'other', 7, 1, ''],
          ['rest-update'], ['rest-rr'], ['rest-bin'], ['queue-update'], ['rest-rr-unsupported'], ['rest-update-bad'],
-         ['rest-rr-malformed'], ['rest-update-late'], ['rest-bin-late']]
+         ['rest-rr-malformed'], ['rest-update-late'], ['rest-bin-late'], ['rest-update-big']]
 
 
 def enabled(d):
@@ -100,6 +100,14 @@ def apply(d, mon, ev):
             sim.rest('POST', '/v1/peer/10.0.0.2/send/bin_update', {'binary_data': ss.marked_update(9)[0].hex()}, settle=False)
         d.history.append(ev)
         return [], False
+    elif k == 'rest-update-big':
+        # one request announcing 1200 prefixes (more than one 4096-octet UPDATE can hold): however the agent sends it, every
+        # UPDATE frame that reaches the wire is counted once
+        n0 = len(d.history) % 50
+        sim.rest('POST', '/v1/peer/10.0.0.2/send/update', {'attr': {'1': 0, '2': [[2, [65001]]], '3': '10.0.0.1'},
+                                                           'nlri': ['10.%d.%d.%d/32' % (n0, i >> 8, i & 255) for i in range(1200)]})
+        sim.reactor.settle(fire_due=True)
+        d.history.append(ev)
     elif k == 'rest-rr':
         sim.rest('POST', '/v1/peer/10.0.0.2/send/route-refresh', {'afi': 1, 'safi': 1})
         sim.reactor.settle(fire_due=True)
@@ -193,7 +201,7 @@ def pick(en, choice):
     for ev in en:
         w = 4 if ev[0] in ('ok', 'tick', 'ka') or (ev[0] == 'open' and ev[1] == 'valid') else 1
         if ev[0] in ('raw', 'rest-update', 'rest-rr', 'upd', 'rr', 'queue-update', 'rest-bin', 'rest-rr-unsupported', 'rest-update-bad', 'rest-rr-malformed',
-                     'rest-update-late', 'rest-bin-late'):
+                     'rest-update-late', 'rest-bin-late', 'rest-update-big'):
             w = 2
         if ev[0] == 'stop':
             w = 1
